@@ -4,6 +4,8 @@ import EgVerif.Proofs.RateLimiterFilter
 import EgVerif.Gen.FactsC09
 import EgVerif.Proofs.RateLimiterIR
 import EgVerif.Proofs.RateLimiterIRb
+import EgVerif.Proofs.URLRuleIR
+import EgVerif.Proofs.RateLimiterIRr
 /-!
 # C09 — the rate limiter never releases more than `limitForPeriod` per period
 
@@ -605,5 +607,163 @@ example : (run ⟨1, 40, 160⟩ init [(0, 1), (0, 1), (0, 1), (1, 1)]).map (fun 
     [(true, 0), (true, 40), (true, 80), (true, 119)] := by decide
 
 end Cancel
+
+/-! ### which rule applies: `pkg/util/urlrule` (Extension resil, round 3) -/
+section WhichRule
+open EgVerif.RateLimiterFilter EgVerif.URLRule
+
+/-- `pkg/util/urlrule`, re-translated from the source on every run: `StringMatch.Validate` / `Match`,
+`URLRule.Match` / `Init` / `DeepEqual` are the model's (`DeepEqual` ignores `Empty`). -/
+theorem urlrule_regenerated_from_source (re : String → String → Bool) (r r1 : Rule) (method path : String) :
+    Gen.FactsC09IRu.extractionFailed = false ∧
+    Gen.FactsC09IRu.smValidIR r.url = r.url.valid ∧
+    Gen.FactsC09IRu.smMatchIR re r.url path = r.url.matches re path ∧
+    Gen.FactsC09IRu.ruleMatchIR re r method path = r.matches re method path ∧
+    Gen.FactsC09IRu.ruleInitIR r = (r.init.1, r.init.2 || r.url.compiled) ∧
+    Gen.FactsC09IRu.deepEqualIR r r1 = r.deepEqual r1 :=
+  ⟨by decide, smValid_regenerated_from_source _, smMatch_regenerated_from_source re _ path,
+    ruleMatch_regenerated_from_source re r method path, ruleInit_regenerated_from_source r,
+    deepEqual_regenerated_from_source r r1⟩
+
+theorem findIdx_none_all_false : ∀ (ms : List Bool), ms.findIdx? id = none → ∀ b ∈ ms, b = false
+  | [], _, b, hb => by simp at hb
+  | m :: t, h, b, hb => by
+    cases m with
+    | true => simp [List.findIdx?_cons] at h
+    | false =>
+      simp only [List.findIdx?_cons, id, Bool.false_eq_true, if_false, Option.map_eq_none_iff] at h
+      rcases List.mem_cons.mp hb with rfl | hb
+      · rfl
+      · exact findIdx_none_all_false t h b hb
+
+theorem findIdx_some_split : ∀ (ms : List Bool) (i : Nat), ms.findIdx? id = some i →
+    ms = List.replicate i false ++ true :: ms.drop (i + 1)
+  | [], i, h => by simp at h
+  | m :: t, i, h => by
+    cases m with
+    | true =>
+      simp only [List.findIdx?_cons, id, if_true, Option.some.injEq] at h
+      subst h; simp
+    | false =>
+      simp only [List.findIdx?_cons, id, Bool.false_eq_true, if_false, Option.map_eq_some_iff] at h
+      obtain ⟨j, hj, rfl⟩ := h
+      have := findIdx_some_split t j hj
+      simp only [List.replicate_succ, List.cons_append, List.drop_succ_cons]
+      rw [← this]
+
+/-- **A request is limited by the first rule whose methods and URL match — with that rule's policy, or the
+default policy when the rule names none — and not at all when no rule matches.** `rules` are the
+filter's URL rules (after `Init`), `rls` their limiters; the match of rule `k` is the declarative
+`Rule.spec` (method list empty or containing the method; `empty` / exact / prefix / regexp on the path). -/
+theorem limited_by_first_matching_rule (re : String → String → Bool) (rules : List Rule)
+    (rls : List (Option Nat)) (hlen : rls.length = rules.length) (method path : String)
+    (now : Nat → Int) (h : Heap) :
+    let ms := rules.map (fun r => r.inited.matches re method path)
+    (∀ (k : Nat) (r : Rule), rules[k]? = some r → ms[k]? = some (r.spec re method path)) ∧
+    (firstMatch re rules method path = none → handle now ms rls h = some (h, noLimit)) ∧
+    (∀ i lid l, firstMatch re rules method path = some i → rls[i]? = some (some lid) → heapGet h lid = some l →
+      (∀ k, k < i → ∀ r, rules[k]? = some r → r.spec re method path = false) ∧
+      handle now ms rls h = handle now [true] [some lid] h ∧
+      ∃ h' out, handle now ms rls h = some (h', out) ∧ out.asked = some lid ∧
+        ∀ lid', lid' ≠ lid → heapGet h' lid' = heapGet h lid') := by
+  simp only
+  refine ⟨?_, ?_, ?_⟩
+  · intro k r hk
+    simp [List.getElem?_map, hk, matches_eq_spec]
+  · intro hn
+    exact unmatched_never_limited now _ rls h (findIdx_none_all_false _ hn)
+  · intro i lid l hi hr hl
+    have hsplit := findIdx_some_split _ i hi
+    have hilt : i < rls.length := by
+      have := List.findIdx?_eq_some_iff_getElem.mp hi
+      obtain ⟨hlt, _⟩ := this
+      simpa [hlen] using hlt
+    have hrls : rls = rls.take i ++ some lid :: rls.drop (i + 1) := by
+      have : rls[i] = some lid := by
+        have := List.getElem?_eq_getElem hilt
+        rw [this] at hr; exact Option.some.inj hr
+      rw [← this]
+      exact (List.take_append_drop i rls).symm.trans (by rw [List.drop_eq_getElem_cons hilt])
+    have htl : (rls.take i).length = i := by simp; omega
+    have key := first_matching_rule_only now (rls.take i) (rls.drop (i + 1))
+      ((rules.map (fun r => r.inited.matches re method path)).drop (i + 1)) lid h l hl
+    rw [htl, ← hsplit, ← hrls] at key
+    refine ⟨?_, key.1, ?_⟩
+    · intro k hk r hrk
+      have hms := List.findIdx?_eq_some_iff_getElem.mp hi
+      obtain ⟨hlt, _, hprev⟩ := hms
+      have hk' : k < (rules.map (fun r => r.inited.matches re method path)).length := by omega
+      have := hprev k hk
+      simp only [List.getElem_map, _root_.id] at this
+      have hrk' : rules[k] = r := by
+        have h1 := List.getElem?_eq_getElem (l := rules) (i := k) (by simpa using hk')
+        rw [h1] at hrk; exact Option.some.inj hrk
+      rw [hrk', matches_eq_spec] at this
+      simpa using this
+    · rw [key.1]; exact key.2
+
+/-- a rule that names no policy uses the default one -/
+theorem default_policy_when_unnamed (s : Spec) (u : RateLimiterFilter.URLRule) (hu : u.policyRef = "") :
+    bindPolicy s u = findPolicy s.policies s.defaultRef := by
+  simp [bindPolicy, hu]
+
+/-- overlapping rules: `POST /a/b` skips the GET-only exact rule and is limited by the regexp rule behind
+it; `GET /a/b` is limited by the exact rule; `GET /c` by none; an `empty` rule only sees the empty path -/
+example :
+    let re : String → String → Bool := fun p v => p == "r" && v == "/a/b"
+    let rules : List Rule := [⟨["GET"], ⟨"/a/b", "", "", false, false⟩, "p1"⟩, ⟨[], ⟨"", "", "r", false, false⟩, ""⟩,
+      ⟨[], ⟨"", "", "", true, false⟩, ""⟩]
+    firstMatch re rules "POST" "/a/b" = some 1 ∧ firstMatch re rules "GET" "/a/b" = some 0 ∧
+    firstMatch re rules "GET" "/c" = none ∧ firstMatch re rules "PUT" "" = some 2 := by
+  decide
+
+end WhichRule
+
+/-! ### `reload` tied by translation (Extension resil, round 3) -/
+section ReloadIR
+open EgVerif.RateLimiterFilter
+
+/-- the filter's `reload` (`Init` / `Inherit`), re-translated from its body on every run, is the model's
+`reload` — so `reload_keeps_state` is about the regenerated definition -/
+theorem reload_regenerated_from_source (s : Spec) (prev : Option Gen) (heap : Heap) (next : Nat) :
+    Gen.FactsC09IRr.extractionFailed = false ∧ Gen.FactsC09IRr.reloadIR s prev heap next = reload s prev heap next :=
+  ⟨by decide, RateLimiterFilter.reload_regenerated_from_source s prev heap next⟩
+
+/-- `isSamePolicy` and `bindPolicyToURL`, re-translated from their bodies: which policy a rule is bound to
+(own reference, else the default one) and when a rule's policy counts as unchanged -/
+theorem policy_lookup_regenerated_from_source (s1 s2 : Spec) (n : String) (u : URLRule) :
+    Gen.FactsC09IRr.extractionFailed = false ∧
+    Gen.FactsC09IRr.isSamePolicyIR s1 s2 n = isSamePolicy s1 s2 n ∧
+    Gen.FactsC09IRr.bindPolicyIR s1 u = bindPolicy s1 u :=
+  ⟨by decide, RateLimiterFilter.isSamePolicy_regenerated_from_source s1 s2 n,
+    RateLimiterFilter.bindPolicy_regenerated_from_source s1 u⟩
+
+/-- **State carry-over, of the regenerated `reload`**: an unchanged rule with an unchanged policy keeps the
+very limiter object (hence its accumulated tokens) of the first equal previous rule; every existing limiter
+object is left untouched. -/
+theorem reload_ir_keeps_state (newSpec : Spec) (g : Gen) (heap : Heap) (next : Nat)
+    (hok : ∀ e ∈ heap, e.1 < next) (hall : ∀ r ∈ g.rls, r ≠ none)
+    (hbind : ∀ u ∈ newSpec.urls, (bindPolicy newSpec u).isSome) :
+    let st := Gen.FactsC09IRr.reloadIR newSpec (some g) heap next
+    st.panicked = false ∧
+    (∀ id l, heapGet heap id = some l → heapGet st.heap id = some l) ∧
+    ∀ (i : Nat) (u : URLRule), newSpec.urls[i]? = some u →
+      ∀ (j id : Nat), g.spec.urls[j]? = some u → (∀ k : Nat, k < j → g.spec.urls[k]? ≠ some u) →
+        g.rls[j]? = some (some id) → isSamePolicy newSpec g.spec u.policyRef = true →
+        st.rls[i]? = some (some id) := by
+  simp only
+  rw [RateLimiterFilter.reload_regenerated_from_source]
+  obtain ⟨h1, _, h3, h4⟩ := reload_keeps_state newSpec g heap next hok hall hbind
+  exact ⟨h1, h3, fun i u hu => (h4 i u hu).1⟩
+
+/-- rule 0 unchanged (same policy) keeps limiter 7, rule 1 is new and gets the fresh object 9 -/
+example :
+    let pol : Pol := ⟨"p", "", "", 5, 0, 0⟩
+    let u0 : URLRule := ⟨[], "/a", "", "", ""⟩
+    let u1 : URLRule := ⟨["GET"], "", "/b", "", ""⟩
+    (Gen.FactsC09IRr.reloadIR ⟨[pol], "p", [u0, u1]⟩ (some ⟨⟨[pol], "p", [u0]⟩, [some 7]⟩) [] 9).rls = [some 7, some 9] := by
+  decide
+
+end ReloadIR
 
 end EgVerif.C09
